@@ -451,6 +451,57 @@ class Session(object):
         self.q("pagesiter")          # the traversal order the oracle needs ("in some order")
         return self.do("addrule %s %s" % (hx(a), self.r.choice(RULE_NAMES[1:])))
 
+    def w_nestsite(self):
+        """a site whose pages arrive in an order that makes one of them an inner node of its sibling tree (pages of the
+        site on both sides); that page becomes a webentity of its own, with link-bearing pages below; then the site is paged
+        through, pages and page links, one and two at a time"""
+        r = self.r
+        st = stems_of(self.new_lru())
+        hosts_end = max([i for i, x in enumerate(st) if x.startswith((b"h:", b"s:", b"t:"))] + [0]) + 1
+        site = b"".join(st[:hosts_end])
+        base = site + r.choice([b"", b"p:europe|"])
+        names = r.sample([b"p:france|", b"p:spain|", b"p:italy|", b"p:austria|", b"p:zambia|", b"p:m|", b"p:k|", b"p:b|"], r.randint(4, 6))
+        pages = [base + n for n in names]
+        nested = pages[r.choice([0, 0, 1])]
+        sub = [nested + b"p:%c|" % c for c in r.sample(list(b"cabz"), r.randint(1, 3))]
+        if r.random() < 0.4:
+            sub.append(sub[0] + b"p:deep|")
+        self.do("create " + brack([hx(site)]))
+        self.do("addpages %s %s" % (brack([hx(l) for l in pages + sub]), r.choice("01")))
+        self.do("create " + brack([hx(nested)]))
+        for l in pages + sub:
+            self.note(l); self.pages.append(l)
+        links = [(r.choice(pages), r.choice(pages)) for _ in range(r.randint(2, 4))] + \
+                [(r.choice(sub), r.choice(pages + sub)) for _ in range(r.randint(1, 3))] + \
+                [(r.choice(pages), r.choice(sub)) for _ in range(r.randint(1, 2))] + [(nested, r.choice(sub)), (r.choice(pages), nested)]
+        res = self.do("addlinks " + brack(["%s>%s" % (hx(a_), hx(b_)) for a_, b_ in links]))
+        m = self.we_map()
+        w = next((k for k, v in m.items() if site in v), None)
+        if w is None:
+            return res
+        a = brack([hx(p_) for p_ in m[w]])
+        want = self.p.get("r", {})
+        if want.get("paginate", 1) >= want.get("paginatelinks", 1):
+            self.q("pages %d %s" % (w, a))
+            for k in ("1", "2"):
+                tok = "-"
+                for _ in range(14):
+                    ans = self.q("paginate %d %s %s %s 0" % (w, a, k, tok))
+                    if not ans.startswith("ok done=0"):
+                        break
+                    tok = ans.rsplit("token=", 1)[1]
+        if want.get("paginatelinks", 1) >= want.get("paginate", 1):
+            for n, o in (("1", "1"), r.choice([("1", "0"), ("0", "1")])):
+                self.q("pagelinks %d %s 0 %s %s" % (w, a, n, o))
+                for k in ("1", "2"):
+                    tok = "-"
+                    for _ in range(14):
+                        ans = self.q("paginatelinks %d %s %s %s %s %s" % (w, a, n, o, k, tok))
+                        if not ans.startswith("ok done=0"):
+                            break
+                        tok = ans.rsplit("token=", 1)[1]
+        return res
+
     def w_reinstall(self):
         """a client pushing its rule set again: a rule already in force is installed a second time (same anchor, same
         pattern), after a webentity lying below its anchor has been deleted: the pages there are evaluated again"""
@@ -702,7 +753,7 @@ class Session(object):
         self.do("hash")
 
     WRITES = ["addpage", "addpages", "addlinks", "batch", "create", "delete", "addprefix", "rmprefix", "moveprefix",
-              "addrule", "rmrule", "reopen", "clear", "cobatch", "deleteu", "addruleram", "chain", "nestedrules", "reinstall"]
+              "addrule", "rmrule", "reopen", "clear", "cobatch", "deleteu", "addruleram", "chain", "nestedrules", "reinstall", "nestsite"]
     READS = ["resolution", "pages", "paginate", "paginatelinks", "mostlinked", "hierarchy", "welinks", "pagelinks",
              "network", "global", "linksiter", "locate", "metrics", "helpers", "hierarchy_all"]
 
@@ -723,4 +774,4 @@ class Session(object):
 
 DEFAULT_W = {"addpage": 6, "addpages": 2, "addlinks": 4, "batch": 3, "create": 3, "delete": 1.2, "addprefix": 1.5,
              "rmprefix": 1, "moveprefix": 0.8, "addrule": 1.5, "rmrule": 0.5, "reopen": 0.8, "clear": 0.25, "cobatch": 0.5,
-             "deleteu": 0.5, "addruleram": 0.4, "chain": 0.06, "nestedrules": 0.15, "reinstall": 0.1}
+             "deleteu": 0.5, "addruleram": 0.4, "chain": 0.06, "nestedrules": 0.15, "reinstall": 0.1, "nestsite": 0.1}
